@@ -779,15 +779,16 @@ class Optimizer(object):
             yi_no_failure = [v for v in yi if v != OBJECTIVE_VALUE_FAILURE]
 
             # when yi_no_failure is empty all configurations are failures
+            # (axis=0: with multiple objectives each objective is replaced individually)
             if len(yi_no_failure) == 0:
                 if len(yi) >= self.max_failures:
                     raise ExhaustedFailures
                 # constant value for the acq. func. to return anything
                 yi_failed_value = 0
             elif self.filter_failures == "mean":
-                yi_failed_value = np.mean(yi_no_failure).tolist()
+                yi_failed_value = np.mean(yi_no_failure, axis=0).tolist()
             else:
-                yi_failed_value = np.max(yi_no_failure).tolist()
+                yi_failed_value = np.max(yi_no_failure, axis=0).tolist()
 
             yi = [v if v != OBJECTIVE_VALUE_FAILURE else yi_failed_value for v in yi]
 
